@@ -158,41 +158,31 @@ func (c *CModes) hasArg(set bool, mode byte) (hasArgs, isSetting bool) {
 // For example, the latter would mean applying an incoming MODE with the modes
 // stored for a channel.
 func (c *CModes) Apply(modes []CMode) {
-	var newModes []CMode
+	newModes := make([]CMode, len(c.modes))
+	copy(newModes, c.modes)
 
-	for j := 0; j < len(c.modes); j++ {
-		isin := false
-		for i := 0; i < len(modes); i++ {
-			if !modes[i].setting {
-				continue
-			}
-			if c.modes[j].name == modes[i].name && modes[i].add {
-				newModes = append(newModes, modes[i])
-				isin = true
-				break
-			}
-		}
-
-		if !isin {
-			newModes = append(newModes, c.modes[j])
-		}
-	}
-
+	// Apply each change in order: "+x" sets (or replaces) the mode, "-x"
+	// removes it.
 	for i := 0; i < len(modes); i++ {
-		if !modes[i].setting || !modes[i].add {
+		if !modes[i].setting {
 			continue
 		}
 
-		isin := false
-		for j := 0; j < len(newModes); j++ {
-			if modes[i].name == newModes[j].name {
-				isin = true
+		j := -1
+		for k := 0; k < len(newModes); k++ {
+			if newModes[k].name == modes[i].name {
+				j = k
 				break
 			}
 		}
 
-		if !isin {
+		switch {
+		case modes[i].add && j == -1:
 			newModes = append(newModes, modes[i])
+		case modes[i].add:
+			newModes[j] = modes[i]
+		case j != -1:
+			newModes = append(newModes[:j], newModes[j+1:]...)
 		}
 	}
 
